@@ -94,14 +94,15 @@ Ods(l, r, c)  == LET x == l.c[r * l.w + c + 1] IN <<"d", x[1], x[2]>>      \* 0 
 OdsRow(l, r)  == Strict([c \in 1..l.w |-> Ods(l, r, c - 1)])
 OdsCol(l, c)  == Strict([r \in 1..l.w |-> Ods(l, r - 1, c)])
 Q2Row(l, r)   == Strict([c \in 1..l.w |-> Par(OdsCol(l, c - 1), r - l.w + 1)])      \* w <= r < 2w
-Symmetric(l)  == \A r, c \in 0..(l.w - 1) : Ods(l, r, c) = Ods(l, c, r)
 
-RECURSIVE Eds(_, _, _)
+(* Known incompleteness of the term model: when the ODS equals its transpose, the real bytes *)
+(* of Q3 are symmetric too (E[r][c] = E[c][r]) while the terms Par(Q2Row(r), ..) are not.     *)
+(* The driver recognises the resulting cases (a "forged" response that is byte-identical to  *)
+(* an honest one) and does not count them as verdict drift.                                  *)
 Eds(l, r, c) ==                                                            \* 0 <= r,c < 2w
   IF r < l.w /\ c < l.w THEN Ods(l, r, c)
   ELSE IF r < l.w THEN Par(OdsRow(l, r), c - l.w + 1)
   ELSE IF c < l.w THEN Par(OdsCol(l, c), r - l.w + 1)
-  ELSE IF r > c /\ Symmetric(l) THEN Eds(l, c, r)     \* equal bytes when the ODS is symmetric
   ELSE Par(Q2Row(l, r), c - l.w + 1)
 
 EdsRow(l, r) == Strict([c \in 1..(2 * l.w) |-> Eds(l, r, c - 1)])
